@@ -1,16 +1,17 @@
 // unit `quote_range` -- boundary-delimited iteration behind quotations (yrs/src/iter.rs: `RangeIter::{new, begin}`,
 // `<RangeIter as Iterator>::next`, `<RangeIter as DoubleEndedIterator>::next_back`; yrs/src/block.rs: `Item::{contains, id, len}`
-// (what `ItemPtr::contains(id)` derefs to); yrs/src/slice.rs: `ItemSlice::new`; yrs/src/sticky_index.rs: `StickyIndex::id`; one
-// statement of yrs/src/types/weak.rs `Quotable::quote`).
+// (what `ItemPtr::contains(id)` derefs to), `Item::{is_deleted, is_countable, content_len}`; yrs/src/slice.rs: `ItemSlice::new`;
+// yrs/src/sticky_index.rs: `StickyIndex::id`; yrs/src/iter.rs `BlockIter::next`; yrs/src/types/weak.rs: the index-to-anchor walk
+// of `Quotable::quote` (both loops, PART Q).
 // Serves C20 (KERNEL ONLY): "A quotation of a range of a text, array or XML child list ... dereferences at any later time and on
 // any replica to exactly the elements currently visible between its two boundary elements (boundaries included or excluded as
 // the range was given), including elements inserted inside the range after it was quoted and excluding deleted ones";
 // mechanism named by the property: "boundary-delimited iteration -- LinkSource::unquote, iter.rs RangeIter / within_range".
 // `LinkSource::unquote` is `BlockIter::new(parent.start).within_range(quote_start, quote_end).values()`: THIS unit is the
 // `within_range` stage (which unit ids lie between the two boundary elements, for EVERY block layout -- blocks get split and
-// squashed, items are inserted inside the range: the iterator only sees the current sequence of blocks).  NOT here: `Values`
-// (skips deleted items, reads the content of a slice), `LinkSource::{materialize, to_string, to_xml_string}`, the walk of
-// `quote` itself, `BlockIter`, that the ids of a collection keep their relative order on every replica (integration).
+// squashed, items are inserted inside the range: the iterator only sees the current sequence of blocks) plus, PART Q, how `quote`
+// turns the two indexes into the two boundary elements.  NOT here: `Values`
+// (skips deleted items, reads the content of a slice), `LinkSource::{materialize, to_string, to_xml_string}`, that the ids of a collection keep their relative order on every replica (integration).
 //
 // THE CONVENTION (quoted from /repo):
 //   sticky_index.rs, `enum Assoc`:  "After:  The corresponding [StickyIndex] points to space **after** the referenced [ID]."
@@ -70,6 +71,32 @@
 //   range_start_offset / range_end_cut (STEP level, R18 regions): the two boundary-offset computations on their own.
 //   quote_end_remaining (R18 region of `Quotable::quote`): the guard + `remaining = end_index - start_index + remaining;`: TOTAL on
 //                                every pair of indexes: Err(OutOfBounds) for end_index < start_index, else the new `remaining`.
+//   PART Q -- the index-to-anchor walk of `Quotable::quote` (both loops; R18 regions with the variables of `quote` as parameters):
+//     BlockIter::next         the real body: returns the cursor, moves it to `.right`; in chain terms: first item / the rest; fused.
+//                                `impl BlockSeqIter for BlockIter`: the REAL iterator meets the stand-in contract RangeIter is verified
+//                                under.
+//     Item::{is_deleted, is_countable, content_len}, ItemFlags::{check, is_deleted, is_countable}: real bodies.
+//     quote_start_walk        (`start_index = start_i; .. let start_id = ..;`) total on every chain of `walk_item_ok` items.  PROPERTY,
+//                                for EVERY layout: the anchor is THE ELEMENT AT INDEX start_i (`anchors_unit`: the id c[k].id +
+//                                clock_off(c[k], r) for (k, r) = end_walk(chain, start_i)), Err(OutOfBounds) iff start_i >= |V| -- as
+//                                the doc comment says ("that index still needs to point to existing value").
+//     quote_end_walk          (guard, `remaining = ..`, second loop, `let end_id = ..;`) on the chain beginning with `curr`: the anchor
+//                                is the element at index end_index - start_index + remaining of that chain, Err(OutOfBounds) iff
+//                                there is none or end_index < start_index.
+//     quote_start_step / quote_end_step (STEP level): the two loop bodies on their own.
+//     theorem_quote_anchors   (pure; the data flow of `quote`) on EVERY layout the start anchor is the element at index s and the END
+//                                anchor the element at index e of the whole chain, Err iff s >= |V| resp. e >= |V|.
+//                                "The element at index n" = `end_walk`: characterized by `lemma_walk_bounds` (a VISIBLE item k, offset
+//                                o < content_len, exactly n visible index units in front: vsum(k) + o == n; None iff n >= |V|).
+//     theorem_quote_then_drain (pure; COMPOSITION with theorem_quote_range) quote(s, e) followed by a drained RangeIter over the same
+//                                unchanged chain yields exactly ALL clock units of the chain -- visible or not: RangeIter does not
+//                                look at tombstones, its consumer `Values` skips them -- from the element at index s to the element at
+//                                index e (exclusive bounds: behind / in front of it); the VISIBLE ones among them are exactly
+//                                V[s ..= e] (`vpart`, `lemma_vpart`).  For index units that are clock units (`unit_is_clock`: every
+//                                UTF-16 document, non-string content in any document); for EVERY layout of the chain.
+//     NOT ingested (described, not verified): the mapping of `RangeBounds` to (index, Assoc) (std `Bound`), the unbounded arms
+//                                (`curr = i.next()` + the branch-scoped StickyIndex: id() == None, so from the first / to the last
+//                                item), `LinkSource::new`, `WeakPrelim::with_source`.
 //   RangeIter::next_back      OBSERVATION QB, dead code.  Under contract against what the code DOES (`next_back_code`, requires the
 //                                weakest precondition of its `ItemSlice::new`).  What it SHOULD do: `next_back_ok(old view, new view,
 //                                r)` -- None iff nothing is left, else a non-empty slice of one pending block holding the LAST units
@@ -82,7 +109,8 @@
 //     yielded.  Only traversals that use one of the two methods exclusively are specified.
 //
 // FINDINGS (reproducer through the public API, feature `weak`: units/quote_range/repro/main.rs; observed on debug AND release
-//   builds of the tree before the repair; the repair is units/quote_range/repair.diff; this unit verifies the REPAIRED code)
+//   builds of the tree before the repairs; the repairs are units/quote_range/repair.diff (Q1, Q2) and repair_q3.diff (Q3); this
+//   unit verifies the REPAIRED code and has no open obligation)
 //   Q1  REPAIRED (was: next reached `ItemSlice::new` with start > end / `offset -= 1` at 0 / ran to the end of the list).  An
 //       EXCLUSIVE start and an end anchored at the SAME element: `array.quote(&txn, (Bound::Excluded(i), Bound::Included(i)))` or
 //       `(Excluded(i), Excluded(i))` (empty ranges; `quote` returns Ok: start = (id_i, After), end = (id_i, After | Before)).
@@ -101,6 +129,22 @@
 //       Before the repair: debug: panic `attempt to subtract with overflow` (weak.rs:748); release: wraps and RETURNS a quotation whose
 //       end anchor is IN FRONT of its start anchor (outside `dom`: `next` ran to the end of the list or built an inverted slice),
 //       inserting it panicked in Store::materialize.  Repair: `if end_index < start_index { return Err(QuoteError::OutOfBounds); }`.
+//   Q3  REPAIRED (in `Quotable::quote`, first walk; obligations quote_start_walk::post, quote_start_step::post).  The first loop
+//       used to leave with `if remaining == 0 { break; }` BEFORE it looked at the item (the second loop has no such test): when the
+//       start index was used up exactly at an item boundary (or was 0), the start anchor was the NEXT item whatever it was -- a
+//       tombstone or non-countable item standing in front of the element at the index (or behind the last element).  Reproduced
+//       before the repair (kept in the reproducer as a record):
+//         [a, (X), b, c] (X removed), `quote((Excluded(1), Included(2)))`: unquote = b, c -- expected c (the exclusive start sat
+//           behind the TOMBSTONE, i.e. AT b);  [(X), a, b, c], `(Excluded(0), Included(2))`: a, b, c -- expected b, c;
+//         inclusive start: [a, X, b, c]; replica 2 inserts Y behind X; replica 1 removes X and quotes 1..=2 (= b, c); after the
+//           exchange the array is a, Y, b, c and the quotation dereferenced to Y, b, c (same edits without the tombstone: b, c);
+//         `[a, b, (X)].quote(2..)` was Ok(empty), `[a, b].quote(2..)` Err(OutOfBounds).
+//       Repair: the early exit is gone, the first loop is the second one.
+//   Q4  OBSERVATION / DOCUMENTED ASSUMPTION (outside the walk: `SplittableString::block_offset`, abstract here; the counterpart of
+//       known finding K3 for sticky indexes).  In a document with OffsetKind::Bytes an
+//       index INSIDE a multi-byte character underflows `remaining -= c.len_utf8() as u32` (block.rs:1629: debug panic; release:
+//       wraps, the loop runs to the end of the string and returns its whole UTF-16 length -- an anchor behind the block, so
+//       assumption A-BO below does NOT hold for such an index).  text "a\u{e9}b" (len 4): `quote(1..=2)` panics.
 //   QB  OBSERVATION, DEAD CODE (no caller in the crate; `RangeIter` is pub(crate); and `BlockIter::next_back` walks LEFT from the
 //       same cursor, it is no double-ended iterator).  `next_back` is not the mirror image of `next`: (1) Opened, end without
 //       anchor: `end_offset = ptr.len()` -- one past the last unit (inclusive `end`) [observation_qb_end_one_past_the_block: one
@@ -128,13 +172,27 @@
 //                inherent methods (a trait-method impl cannot carry `requires`); `Self::Item` is spelled `ItemSlice` (SUB, logged).
 //   ItemPtr      real: `struct ItemPtr(NonNull<Item>)` with Deref.  here: `&'static Item` (read-only lowering R15).  ASSUMPTION A5: the
 //                pointees are alive and not mutated during the life of the iterator.
-//   Item         sliced to `id`, `len`.  DROPPED: left, right, origin, right_origin, content, parent, redone, parent_sub, info.
+//   Item         sliced to `id`, `len`, `right`, `info`, `content`.  DROPPED: left, origin, right_origin, parent, redone, parent_sub.
+//                The chain `this.start.to_iter()` is the finite list reachable through `.right` (view `chain`; A5: finite and not
+//                mutated during the walk -- an immutable value of this type IS a finite chain).  `curr.as_deref()` is the identity
+//                on the lowered pointer (SUB, logged).  `BlockIter` (struct + `Iterator::next`) is REAL.
+//   ItemContent  ABSTRACTION `enum ItemContent { String(SplittableString), Other(u32) }`: `len(kind)` (stand-in body) is the string's
+//                length in `kind` units resp. the element count (the real `ItemContent::len`: the same for both kinds unless the
+//                content is a string).  `SplittableString` is represented by its two lengths and the TABLE of
+//                `block_offset(_, Bytes)`: `block_offset(offset, kind)` (stand-in body) is `offset` for Utf16 (the REAL first arm),
+//                0 for 0 and otherwise the table entry -- an ARBITRARY function of the offset -- for Bytes.
+//   ASSUMPTIONS of PART Q (`walk_item_ok`): A-CLK; `len` is the UTF-16 length of the content (`Item::new`); a visible item has at
+//                least one index unit; A-BO: for an index offset r inside the item, 0 <= clock_off(r) < len -- DERIVED for UTF-16
+//                documents and non-string content (`lemma_walk_item_ok`), ASSUMED of `block_offset` for strings in Bytes
+//                documents (it fails for an index inside a multi-byte character: OBSERVATION Q4).  The anchor of an element in a
+//                Bytes document is stated as `clock + block_offset(r)`, whatever that function is.
 //   ClientID     opaque, equality only.   Str: opaque, stands for `Arc<str>` in `IndexScope::Root` (never inspected).
 //   ASSUMPTION A-CLK (`item_ok`): every block has len >= 1 (`Item::new` refuses empty content) and id.clock + len <= u32::MAX (the
 //                client's next clock is a u32).  `disjoint`: no unit id in two blocks (block store invariant); used only by the
 //                "exactly once" statements, NOT by the contracts of begin / next / next_back.
 //   Field visibility (`pub` added to the fields of RangeIter / StickyIndex, `pub enum RangeIterState`): SUB, logged.
 //   REWRITE of a construct Verus mishandles (same meaning, logged, `next` and `next_back`): see `vx_only_in` below.
+//   OffsetKind, ItemFlags, ITEM_FLAG_DELETED / _COUNTABLE: real declarations.
 //   QuoteError   STAND-IN enum with the real single variant `OutOfBounds` (the real one carries a thiserror helper attribute).
 // TRUSTED: nothing of its own.  `vx_unreachable` (vx/prelude.rs) is included but unused.  No assume / admit / external_body.
 // ------------------------------------------------------------------------------------------------------------------
@@ -1999,23 +2057,8 @@ pub open spec fn lift(k: int, w: Option<(int, int)>) -> Option<(int, int)> {
     }
 }
 
-/// what the FIRST loop of `quote` computes for the index `r` on the chain `c`: (index of the item it stops at, what is left of
-/// `r`); None = the chain is exhausted
-pub open spec fn start_walk(c: Seq<ItemPtr>, r: int, kind: OffsetKind) -> Option<(int, int)>
-    decreases c.len(),
-{
-    if c.len() == 0 {
-        None
-    } else if r == 0 {
-        Some((0, 0))
-    } else if vis(c[0]) && r < clen(c[0], kind) {
-        Some((0, r))
-    } else {
-        lift(1, start_walk(c.skip(1), r - units(c[0], kind), kind))
-    }
-}
-
-/// what the SECOND loop computes.  This IS "the element at index r": invisible items are passed, the first visible item with
+/// what BOTH loops of `quote` compute for the index `r` on the chain `c`: (index of the item the loop stops at, what is left of
+/// `r`); None = the chain is exhausted.  This IS "the element at index r": invisible items are passed, the first visible item with
 /// r < content_len holds it at (index-unit) offset r
 pub open spec fn end_walk(c: Seq<ItemPtr>, r: int, kind: OffsetKind) -> Option<(int, int)>
     decreases c.len(),
@@ -2082,15 +2125,6 @@ pub proof fn lemma_walk_item_ok(p: &Item, kind: OffsetKind)
 {
 }
 
-/// FINDING Q3, input class: the first loop stops -- with nothing left of the index -- at an item that is NOT visible (a tombstone
-/// or a non-countable item directly in front of the element at the index, or behind the last element)
-pub open spec fn finding_q3_start_anchor_on_invisible_item(c: Seq<ItemPtr>, n: int, kind: OffsetKind) -> bool {
-    match start_walk(c, n, kind) {
-        Some((k, r)) => r == 0 && !vis(c[k]),
-        None => false,
-    }
-}
-
 /// THE PROPERTY for one bound ("the quotation's boundary elements are the elements at the given indices"): the result is the
 /// anchor of V[n] -- the id of the clock unit `clock_off` assigns to it inside the item holding it --, an error iff n >= |V|
 pub open spec fn anchors_unit(c: Seq<ItemPtr>, n: int, kind: OffsetKind, r: Result<ID, QuoteError>) -> bool {
@@ -2105,10 +2139,6 @@ pub proof fn lemma_walk_bounds(c: Seq<ItemPtr>, n: int, kind: OffsetKind)
         walk_ok(c, kind),
         0 <= n,
     ensures
-        match start_walk(c, n, kind) {
-            Some((k, r)) => 0 <= k < c.len() && vsum(c, k, kind) + r == n && 0 <= r && (r > 0 ==> vis(c[k]) && r < clen(c[k], kind)),
-            None => true,
-        },
         // "the element at index n": a VISIBLE item, the offset inside it, and exactly n visible units in front of it
         match end_walk(c, n, kind) {
             Some((k, r)) => 0 <= k < c.len() && vis(c[k]) && 0 <= r < clen(c[k], kind) && vsum(c, k, kind) + r == n,
@@ -2129,10 +2159,6 @@ pub proof fn lemma_walk_bounds(c: Seq<ItemPtr>, n: int, kind: OffsetKind)
         if m >= 0 {
             lemma_walk_bounds(t, m, kind);
             lemma_vsum_shift(c, kind);
-            match start_walk(t, m, kind) {
-                Some((k, r)) => { assert(t[k] == c[k + 1]); },
-                None => {},
-            }
             match end_walk(t, m, kind) {
                 Some((k, r)) => { assert(t[k] == c[k + 1]); },
                 None => {},
@@ -2167,38 +2193,6 @@ pub proof fn lemma_vsum_shift_k(c: Seq<ItemPtr>, k: int, kind: OffsetKind)
         assert(c.skip(1)[k - 1] == c[k]);
     } else {
         assert(vsum(c, 0, kind) == 0);
-    }
-}
-
-/// outside the class of FINDING Q3 the first loop finds the element at the index, like the second
-pub proof fn lemma_start_is_unit(c: Seq<ItemPtr>, n: int, kind: OffsetKind)
-    requires
-        walk_ok(c, kind),
-        0 <= n,
-        !finding_q3_start_anchor_on_invisible_item(c, n, kind),
-    ensures
-        start_walk(c, n, kind) == end_walk(c, n, kind),
-    decreases c.len(),
-{
-    if c.len() > 0 {
-        let t = c.skip(1);
-        assert(walk_item_ok(c[0], kind));
-        assert forall|i: int| 0 <= i < t.len() implies walk_item_ok(#[trigger] t[i], kind) by {
-            assert(t[i] == c[i + 1]);
-        }
-        if n == 0 {
-            // the loop stops at once; the item is visible (outside the class), so it holds V[0]
-            assert(vis(c[0]) && 0 < clen(c[0], kind));
-        } else if vis(c[0]) && n < clen(c[0], kind) {
-        } else {
-            let m = n - units(c[0], kind);
-            lemma_walk_bounds(t, m, kind);
-            match start_walk(t, m, kind) {
-                Some((k, r)) => { assert(t[k] == c[k + 1]); },
-                None => {},
-            }
-            lemma_start_is_unit(t, m, kind);
-        }
     }
 }
 
@@ -2288,61 +2282,36 @@ pub proof fn lemma_unit_order(c: Seq<ItemPtr>, n1: int, n2: int, kind: OffsetKin
 }
 
 /// THE TWO WALKS TOGETHER (the data flow of `quote`: the second walk gets `curr` / `remaining` / the iterator of the first).
-/// For a start index s and an end index e: the END anchor is the element at index e -- in EVERY case --, OutOfBounds iff
-/// e < s or there is no such element; the start anchor is the element at index s outside the class of FINDING Q3
+/// For a start index s and an end index e >= s, on EVERY layout of the chain: the start anchor is the element at index s, the
+/// END anchor is the element at index e of the whole chain; OutOfBounds iff there is no such element (s >= |V| resp. e >= |V|)
 pub proof fn theorem_quote_anchors(c: Seq<ItemPtr>, s: int, e: int, kind: OffsetKind)
     requires
         walk_ok(c, kind),
         0 <= s <= e,
     ensures
-        match start_walk(c, s, kind) {
+        end_walk(c, s, kind) is None <==> s >= vlen(c, kind),
+        end_walk(c, e, kind) is None <==> e >= vlen(c, kind),
+        match end_walk(c, s, kind) {
             // (the first walk ran off the chain: s >= |V|, so e >= |V| as well)
-            None => s >= vlen(c, kind) && end_walk(c, e, kind) is None,
+            None => end_walk(c, e, kind) is None,
             Some((k, r)) => {
                 // what the second walk returns, on the chain `walk_chain(Some(c[k]), c.skip(k + 1))`, for the target e - s + r ...
                 &&& walk_chain(Some(c[k]), c.skip(k + 1)) == c.skip(k)
                 &&& 0 <= r <= s
                 // ... is the element at index e of the WHOLE chain
                 &&& lift(k, end_walk(c.skip(k), e - s + r, kind)) == end_walk(c, e, kind)
-                &&& end_walk(c, e, kind) is None <==> e >= vlen(c, kind)
-                &&& !finding_q3_start_anchor_on_invisible_item(c, s, kind) ==> start_walk(c, s, kind) == end_walk(c, s, kind) && s < vlen(c, kind)
             },
         },
 {
     lemma_walk_bounds(c, s, kind);
     lemma_walk_bounds(c, e, kind);
-    match start_walk(c, s, kind) {
-        None => {
-            lemma_start_none(c, s, kind);
-        },
+    match end_walk(c, s, kind) {
+        None => {},
         Some((k, r)) => {
             assert(seq![c[k]] + c.skip(k + 1) =~= c.skip(k));
             lemma_vsum_nonneg(c, k, kind);
             lemma_end_walk_from(c, k, e, kind);
-            if !finding_q3_start_anchor_on_invisible_item(c, s, kind) {
-                lemma_start_is_unit(c, s, kind);
-            }
         },
-    }
-}
-
-/// the first walk runs off the chain only for an index beyond the last element
-pub proof fn lemma_start_none(c: Seq<ItemPtr>, n: int, kind: OffsetKind)
-    requires
-        walk_ok(c, kind),
-        0 <= n,
-        start_walk(c, n, kind) is None,
-    ensures
-        n >= vlen(c, kind),
-    decreases c.len(),
-{
-    if c.len() > 0 {
-        let t = c.skip(1);
-        assert(walk_item_ok(c[0], kind));
-        assert forall|i: int| 0 <= i < t.len() implies walk_item_ok(#[trigger] t[i], kind) by {
-            assert(t[i] == c[i + 1]);
-        }
-        lemma_start_none(t, n - units(c[0], kind), kind);
     }
 }
 
@@ -2543,14 +2512,13 @@ pub proof fn lemma_vcount_at(c: Seq<ItemPtr>, k: int, id: ID, d: int, kind: Offs
 /// unchanged chain -- by a `RangeIter` over `c` with the two anchors, drained: the slices yielded are exactly ALL the clock
 /// units of the chain (visible or not: `RangeIter` does not look at tombstones, its consumer `Values` skips them) from the
 /// element at index s (behind it for an exclusive start) to the element at index e (in front of it for an exclusive end).
-/// Stated for index units that are clock units (`unit_is_clock`) and outside the class of FINDING Q3.
+/// Stated for index units that are clock units (`unit_is_clock`); for EVERY layout of the chain.
 pub proof fn theorem_quote_then_drain(c: Seq<ItemPtr>, s: int, e: int, kind: OffsetKind, start: StickyIndex, end: StickyIndex, vs: Seq<IterView>, outs: Seq<ItemSlice>)
     requires
         walk_ok(c, kind),
         disjoint(c),
         unit_is_clock(c, kind),
         0 <= s <= e < vlen(c, kind),
-        !finding_q3_start_anchor_on_invisible_item(c, s, kind),
         // the anchors `quote` returns (quote_start_walk / quote_end_walk + theorem_quote_anchors)
         start.id_spec() == Some(anchor_id(c[end_walk(c, s, kind).unwrap().0], end_walk(c, s, kind).unwrap().1, kind)),
         end.id_spec() == Some(anchor_id(c[end_walk(c, e, kind).unwrap().0], end_walk(c, e, kind).unwrap().1, kind)),
@@ -2639,7 +2607,7 @@ pub open spec fn walk_at(c0: Seq<ItemPtr>, rest: Seq<ItemPtr>, curr: Option<Item
 // ---- the real code: the two walks of `Quotable::quote`, lifted (R18 statement regions).  Parameters = the variables of `quote`
 // the statements read / write (`i`: the BlockIter over the chain; `curr`, `remaining`, `start_index`: live-in AND live-out);
 // `curr.as_deref()` on the lowered pointer is the identity (SUB, logged).
-// FIRST WALK: `start_index = start_i; remaining = start_index; curr = i.next(); while .. {..}; let start_id = ..;` (Ok = the
+// FIRST WALK (FINDING Q3, repaired): `start_index = start_i; remaining = start_index; curr = i.next(); while .. {..}; let start_id = ..;` (Ok = the
 // statements ran through: (start_id, start_index, remaining, curr) as the rest of `quote` sees them)
 /*@extract yrs/src/types/weak.rs | trait Quotable: AsRef<Branch> + Sized | region quote | stmt=stmt:assign start_index | stmtnth=1 | upto=stmt:let start_id | tail=Ok((start_id, start_index, remaining, curr)) | label=quote_start_walk | rules=SUB(from=.as_deref();;to=)
 @header
@@ -2648,87 +2616,22 @@ pub open spec fn walk_at(c0: Seq<ItemPtr>, rest: Seq<ItemPtr>, curr: Option<Item
     requires
         walk_ok(chain(old(i).0), encoding),
     ensures
-        // WHAT THE CODE COMPUTES: the item the first loop stops at, what is left of the index, and the anchor id made of them
-        match start_walk(chain(old(i).0), start_i as int, encoding) {
-            Some((k, r)) => res is Ok && res->Ok_0.0 == anchor_id(chain(old(i).0)[k], r, encoding) && res->Ok_0.1 == start_i && res->Ok_0.2 == r
-                && res->Ok_0.3 == Some(chain(old(i).0)[k]) && chain(final(i).0) =~= chain(old(i).0).skip(k + 1),
-            None => res is Err && res->Err_0 is OutOfBounds,
-        },
-        // THE PROPERTY: the start anchor is the element at index `start_i`; OutOfBounds iff there is none
-        !finding_q3_start_anchor_on_invisible_item(chain(old(i).0), start_i as int, encoding) ==> anchors_unit(chain(old(i).0), start_i as int, encoding, match res { Ok(x) => Ok(x.0), Err(e) => Err(e) }),
-@start
-    let ghost c0 = chain(i.0);
-    proof {
-        lemma_walk_bounds(c0, start_i as int, encoding);
-        if !finding_q3_start_anchor_on_invisible_item(c0, start_i as int, encoding) {
-            lemma_start_is_unit(c0, start_i as int, encoding);
-        }
-        assert(c0.skip(0) =~= c0);
-    }
-@loop 1
-    invariant
-        c0 == chain(old(i).0),
-        walk_ok(c0, encoding),
-        start_index == start_i,
-        walk_inv(c0, chain(i.0), curr),
-        start_walk(c0, start_i as int, encoding) == lift(walk_at(c0, chain(i.0), curr), start_walk(c0.skip(walk_at(c0, chain(i.0), curr)), remaining as int, encoding)),
-    ensures
-        match curr {
-            Some(p) => start_walk(c0, start_i as int, encoding) == Some((walk_at(c0, chain(i.0), curr), remaining as int)),
-            None => start_walk(c0, start_i as int, encoding) is None,
-        },
-    decreases
-        chain(i.0).len() + (if curr is Some { 1int } else { 0int }),
-@loopstart 1
-    let ghost vx_k = walk_at(c0, chain(i.0), curr);
-    proof {
-        assert(c0.skip(vx_k)[0] == c0[vx_k]);
-        assert(c0.skip(vx_k).skip(1) =~= c0.skip(vx_k + 1));
-        assert(walk_item_ok(c0[vx_k], encoding));
-    }
-@before 1 `stmt:let start_id`
-    proof {
-        if curr is Some {
-            let k = walk_at(c0, chain(i.0), curr);
-            assert(walk_item_ok(c0[k], encoding));
-            if remaining > 0 {
-                assert(0 <= clock_off(c0[k], remaining as int, encoding) < c0[k].len);
-            }
-        }
-    }
-@*/
-
-// FINDING Q3 (OPEN; obligation quote_range::quote_start_walk_q3::post).  The same statements once more, on the input class the
-// property clause above excludes.  The first loop leaves with `if remaining == 0 { break; }` BEFORE it looks at the item: when the
-// index is used up exactly at an item boundary (or is 0) the anchor is the NEXT item whatever it is -- a tombstone or a
-// non-countable item that stands in front of the element at the index (the second loop has no such test and passes them).
-//   * exclusive start: the range begins behind the TOMBSTONE, i.e. AT the element that was to be excluded.  [a, (X), b, c] (X
-//     removed), `quote((Excluded(1), Included(2)))`: unquote = b, c -- expected c.  [(X), a, b, c], `(Excluded(0), Included(2))`:
-//     a, b, c -- expected b, c.
-//   * inclusive start: the visible result is right when quoted, but the boundary element is the tombstone: an element another
-//     replica inserted between the tombstone and the first element is INSIDE the quotation.  [a, X, b, c]; replica 2 inserts Y
-//     behind X; replica 1 removes X and quotes 1..=2 (= b, c); after the exchange the array is a, Y, b, c and the quotation
-//     dereferences to Y, b, c (without the tombstone, same edits: b, c).
-//   * start index == len() with a trailing tombstone: `[a, b, (X)].quote(2..)` is Ok (empty) where `[a, b].quote(2..)` is
-//     Err(OutOfBounds) ("that index still needs to point to existing value").
-/*@extract yrs/src/types/weak.rs | trait Quotable: AsRef<Branch> + Sized | region quote | stmt=stmt:assign start_index | stmtnth=1 | upto=stmt:let start_id | tail=Ok((start_id, start_index, remaining, curr)) | label=quote_start_walk_q3 | rules=SUB(from=.as_deref();;to=)
-@header
-    fn quote_start_walk_q3(i: &mut BlockIter, start_i: u32, encoding: OffsetKind, mut start_index: u32, mut remaining: u32, mut curr: Option<ItemPtr>) -> (res: Result<(ID, u32, u32, Option<ItemPtr>), QuoteError>)
-@sig
-    requires
-        walk_ok(chain(old(i).0), encoding),
-        finding_q3_start_anchor_on_invisible_item(chain(old(i).0), start_i as int, encoding),
-    ensures
-        // THE PROPERTY, on the input class of FINDING Q3: the start anchor is the element at index `start_i`; OutOfBounds iff
-        // there is none
+        // THE PROPERTY, for EVERY layout of the chain (FINDING Q3, repaired: the early exit `if remaining == 0 { break; }` made a
+        // tombstone / non-countable item in front of the element the anchor): the start anchor is THE ELEMENT AT INDEX `start_i`,
+        // OutOfBounds iff there is none ...
         anchors_unit(chain(old(i).0), start_i as int, encoding, match res { Ok(x) => Ok(x.0), Err(e) => Err(e) }),
+        // ... i.e. ("that index still needs to point to existing value") iff start_i >= len()
+        res is Err <==> start_i >= vlen(chain(old(i).0), encoding),
+        res is Err ==> res->Err_0 is OutOfBounds,
+        // and what the rest of `quote` sees: the item the walk stopped at, what is left of the index, the rest of the chain
+        match end_walk(chain(old(i).0), start_i as int, encoding) {
+            Some((k, r)) => res is Ok && res->Ok_0.1 == start_i && res->Ok_0.2 == r && res->Ok_0.3 == Some(chain(old(i).0)[k]) && chain(final(i).0) =~= chain(old(i).0).skip(k + 1),
+            None => res is Err,
+        },
 @start
     let ghost c0 = chain(i.0);
     proof {
         lemma_walk_bounds(c0, start_i as int, encoding);
-        if !finding_q3_start_anchor_on_invisible_item(c0, start_i as int, encoding) {
-            lemma_start_is_unit(c0, start_i as int, encoding);
-        }
         assert(c0.skip(0) =~= c0);
     }
 @loop 1
@@ -2737,11 +2640,11 @@ pub open spec fn walk_at(c0: Seq<ItemPtr>, rest: Seq<ItemPtr>, curr: Option<Item
         walk_ok(c0, encoding),
         start_index == start_i,
         walk_inv(c0, chain(i.0), curr),
-        start_walk(c0, start_i as int, encoding) == lift(walk_at(c0, chain(i.0), curr), start_walk(c0.skip(walk_at(c0, chain(i.0), curr)), remaining as int, encoding)),
+        end_walk(c0, start_i as int, encoding) == lift(walk_at(c0, chain(i.0), curr), end_walk(c0.skip(walk_at(c0, chain(i.0), curr)), remaining as int, encoding)),
     ensures
         match curr {
-            Some(p) => start_walk(c0, start_i as int, encoding) == Some((walk_at(c0, chain(i.0), curr), remaining as int)),
-            None => start_walk(c0, start_i as int, encoding) is None,
+            Some(p) => end_walk(c0, start_i as int, encoding) == Some((walk_at(c0, chain(i.0), curr), remaining as int)),
+            None => end_walk(c0, start_i as int, encoding) is None,
         },
     decreases
         chain(i.0).len() + (if curr is Some { 1int } else { 0int }),
@@ -2757,9 +2660,7 @@ pub open spec fn walk_at(c0: Seq<ItemPtr>, rest: Seq<ItemPtr>, curr: Option<Item
         if curr is Some {
             let k = walk_at(c0, chain(i.0), curr);
             assert(walk_item_ok(c0[k], encoding));
-            if remaining > 0 {
-                assert(0 <= clock_off(c0[k], remaining as int, encoding) < c0[k].len);
-            }
+            assert(0 <= clock_off(c0[k], remaining as int, encoding) < c0[k].len);
         }
     }
 @*/
@@ -2830,17 +2731,16 @@ pub open spec fn walk_at(c0: Seq<ItemPtr>, rest: Seq<ItemPtr>, curr: Option<Item
 // ---- the bodies of the two loops once more, each lifted on its own (R18 statement regions; `break` is spelled `return (remaining,
 // true)`: SUB, logged), so that an edit of a loop body fails a contract clause of real code and not only the loop invariant
 // spliced into the walks above.  Result: (the new `remaining`, the loop is left).
-/*@extract yrs/src/types/weak.rs | trait Quotable: AsRef<Branch> + Sized | region quote | stmt=stmt:while #1 >> stmt:if | stmtnth=1 | upto=stmt:while #1 >> stmt:if | uptonth=2 | tail=(remaining, false) | label=quote_start_step | rules=SUB(from=break;;to=return (remaining, true))
+/*@extract yrs/src/types/weak.rs | trait Quotable: AsRef<Branch> + Sized | region quote | stmt=stmt:while #1 >> stmt:if | stmtnth=1 | tail=(remaining, false) | label=quote_start_step | rules=SUB(from=break;;to=return (remaining, true))
 @header
     fn quote_start_step(item: &Item, encoding: OffsetKind, mut remaining: u32) -> (r: (u32, bool))
 @sig
     ensures
-        // nothing left of the index: stop HERE, whatever the item is (the source of FINDING Q3)
-        remaining == 0 ==> r == (0u32, true),
         // a visible item that holds the index: stop
-        remaining > 0 && vis(item) && remaining < clen(item, encoding) ==> r == (remaining, true),
-        // a visible item in front of the index: its units are consumed; an invisible item: passed
-        remaining > 0 && !(vis(item) && remaining < clen(item, encoding)) ==> r.0 == remaining - units(item, encoding) && !r.1,
+        vis(item) && remaining < clen(item, encoding) ==> r == (remaining, true),
+        // a visible item in front of the index: its units are consumed; an invisible item (tombstone / non-countable): passed --
+        // ALSO when nothing is left of the index (FINDING Q3, repaired)
+        !(vis(item) && remaining < clen(item, encoding)) ==> r.0 == remaining - units(item, encoding) && !r.1,
 @*/
 
 /*@extract yrs/src/types/weak.rs | trait Quotable: AsRef<Branch> + Sized | region quote | stmt=stmt:while #2 >> stmt:if | stmtnth=1 | tail=(remaining, false) | label=quote_end_step | rules=SUB(from=break;;to=return (remaining, true))
